@@ -25,7 +25,7 @@ ASSUMPTIONS = [
     "family membership is asserted there",
     "ValueError for unknown ids / undecodable values is documented behaviour and not a network failure",
 ]
-MUST = ["refusals_reported_as_rejected", "answers_cut_off_at_every_length", "requests_after_an_event_loop_change", "failure_count_vs_wire_log", "cfc_checked_through_api", "damaged_frames_not_a_refusal", "os_error_on_send", "os_error_on_receive", "idle_error_keepalive", "tcp_connect_failure", "cfc_checked",
+MUST = ["requests_across_transaction_id_wrap", "refusals_reported_as_rejected", "answers_cut_off_at_every_length", "requests_after_an_event_loop_change", "failure_count_vs_wire_log", "cfc_checked_through_api", "damaged_frames_not_a_refusal", "os_error_on_send", "os_error_on_receive", "idle_error_keepalive", "tcp_connect_failure", "cfc_checked",
         "cfc_after_rejection", "cfc_checked_overlapping_calls", "entry_points_under_fault", "settings_read_with_refused_registers", "api_calls_under_fault", "ident_payloads", "discover_payloads", "failed_exception_seen",
         "rejected_exception_seen"]
 EXHAUSTIVE = {"quick": False, "thorough": False}
@@ -569,6 +569,20 @@ def run_shard(spec):
     elif p == "Aconnect":
         probe_failures_part(part)
         loop_change_part(part)
+        # a long-running process: failing and served Modbus/TCP requests while the process-wide transaction counter passes its 16-bit end
+        g0 = env.goodwe()
+        probe = g0.protocol.ModbusTcpReadCommand(0xF7, 100, 2)
+        for _ in range(140000):
+            try:
+                if int.from_bytes(probe.request_bytes()[0:2], "big") >= 65531:
+                    break
+            except Exception:       # noqa  (building requests in a loop is C03's subject; here the public calls that follow count)
+                break
+        for k in range(6):
+            for ka in (False, True):
+                vs_ = run_a(scenario_a("tcp", ka, 1, 1, [["drop", "drop", "now"], ["now", "now"], ["garbage", "drop", "now"]][k % 3], ["rsensor", "wsetting", "wmulti"][k % 3]), part)
+                if not vs_:
+                    part.count("requests_across_transaction_id_wrap")
         for R in (0, 1, 2):
             for d in range(1, spec["depth"] + 1):
                 for cs in itertools.product(["ok", "refused", "unreach", "hostunreach", "timeout", "hang"], repeat=d):
